@@ -9,6 +9,8 @@ pub mod c16;
 pub mod c15;
 pub mod c03;
 pub mod c13;
+pub mod c20;
+pub mod c20tok;
 
 pub fn run(prop: &str, rng: &mut R, out: &mut Out, extra: &[String]) -> bool {
     let _ = extra;
@@ -23,6 +25,7 @@ pub fn run(prop: &str, rng: &mut R, out: &mut Out, extra: &[String]) -> bool {
         "C15" => c15::run(rng, out),
         "C03" => c03::run(rng, out),
         "C13" => c13::run(rng, out),
+        "C20" => c20::run(rng, out),
         _ => return false,
     }
     true
@@ -51,6 +54,7 @@ pub fn probe(args: &[String]) {
             let r: Result<Pset, _> = serde_cbor::from_slice(&c);
             println!("cbor roundtrip: {:?}", r.as_ref().map(|x| *x == p).map_err(|e| e.to_string()));
         }
+        Some("c20-short-commitment") => c20::probe_short_commitment(&args[1..]),
         _ => println!("unknown probe"),
     }
 }
